@@ -77,7 +77,13 @@ func run(c Case) (v vkit.Verdict) {
 				if st.Depth > ev.MaxDepth {
 					ev.MaxDepth = st.Depth
 				}
-				if s := sameMultiset(m.Tree.SearchIntersect(everything), m.Live); s != "" {
+				var all []geom.Geom // every stored object except those without any point
+				for _, o := range m.Live {
+					if rtreekit.Intersects(o.Bounds(), everything) {
+						all = append(all, o)
+					}
+				}
+				if s := sameMultiset(m.Tree.SearchIntersect(everything), all); s != "" {
 					msg = "covering search: " + s
 				}
 			}
